@@ -270,7 +270,7 @@ def trace_job(oc, job, repo, seed, tier):
     def rec(k):
         fseed = seed * 1000 + k
         path = os.path.join(BUILD, "tr", "%s.%s.%d.%d.ndjson" % (oc.prop, job["harness"], fseed, os.getpid()))
-        args = job["args"](tier, fseed, k)
+        args = job["args"](tier, fseed, k, job.get("profile", "default"))
         rc, out = record(exe, args, path, timeout=job.get("rec_timeout", 900))
         return k, fseed, path, args, rc, out
 
@@ -343,6 +343,26 @@ def store_replay(prop, job, fseed, args, seglines, kind):
     return path
 
 
+SERDE_EVENTS = {"Ser", "Deser", "Wrap", "SerU", "DeserU"}
+
+
+def attribute(job, ev, rejects):
+    """Which properties does a rejection belong to?  A failing clause named "Cnn:..." belongs to Cnn; an unnamed
+    failure (contract action not enabled) or an unprefixed clause belongs to C09 at a serialization event or on an
+    object restored from an image, otherwise to the properties owning the trace specification."""
+    names = []
+    for rj in rejects:
+        m = re.match(r'<<"REJECT", "([^"]+)"', rj)
+        if m:
+            names.append(m.group(1))
+    default = {"C09"} if (ev.get("e") in job.get("serde_events", SERDE_EVENTS) or ev.get("restored")) else set(job["owners"])
+    owners = set()
+    for n in names or [""]:
+        m = re.match(r"(C\d\d):", n)
+        owners |= {m.group(1)} if m else default
+    return owners
+
+
 def triage(oc, job, fseed, args, seglines, res):
     """Re-validate the rejected segment alone; report only if the rejection repeats (DESIGN 4.3)."""
     res2 = validate_lines(job["spec"], job.get("cfg", job["spec"] + ".cfg"), seglines, "%s.seg.%d" % (oc.prop, fseed))
@@ -350,6 +370,11 @@ def triage(oc, job, fseed, args, seglines, res):
         oc.notes.append("rejection of seed %d did not repeat on the isolated segment (ignored)" % fseed)
         return
     ev = json.loads(seglines[res2["reject_index"]])
+    owners = attribute(job, ev, res2["rejects"])
+    if oc.prop not in owners:
+        oc.notes.append("seed %d: rejection at %s %s belongs to %s, not to %s (not reported here)"
+                        % (fseed, ev.get("e"), " ".join(res2["rejects"][:3]), sorted(owners), oc.prop))
+        return
     desc = "event #%d %s rejected by %s %s" % (res2["reject_index"], json.dumps(ev)[:400], job["spec"], " ".join(res2["rejects"][:4]))
     kf = match_known(oc.prop, job["harness"], ev, res2["rejects"])
     if kf:
